@@ -66,6 +66,7 @@ type CaseCfg struct {
 	MaxDocs  int
 	MaxDepth int  // merge tree depth (0: built only)
 	MaxIn    int  // max inputs of one merge
+	NoBig    bool // block family: no multi-MiB stored values (merging such a block document by document decompresses it once per document: too slow for fault enumeration and the race detector)
 	HoldAny  bool // draw built / loaded-mem / loaded-file; otherwise built (leaves) and loaded-mem (merges)
 }
 
@@ -203,6 +204,9 @@ func GenLeaf(t *rapid.T, ctx *Ctx, sc *Scenario, cfg CaseCfg, label string) (*Se
 	switch cfg.Family {
 	case FamBlocks:
 		p := GenBlocks(t)
+		if cfg.NoBig {
+			p.BigLen, p.BigAt = 0, 0
+		}
 		b, desc = p.Batch(sc), p.String()
 	case FamWide:
 		p := GenWide(t)
